@@ -192,8 +192,8 @@ class C08World(WalletWorld):
         n = 0
         for txid, status in rows:
             c = self.chain.txs.get(txid)
-            if c is None or txid in wi.sent or n >= 6:
-                continue
+            if c is None or txid in wi.sent or txid in wi.unacked or n >= 6:
+                continue        # (unacked: a send of this wallet that was interrupted - its storing never completed)
             ok, t = self.observe(lambda: h.transaction(txid))
             if not ok or t is None:
                 continue
